@@ -144,7 +144,10 @@ class _Rename(ast.NodeTransformer):
 
     def visit_Name(self, n):
         if n.id in self.m:
-            return ast.copy_location(ast.Name(id=self.m[n.id], ctx=n.ctx), n)
+            v = self.m[n.id]
+            if isinstance(v, ast.AST):           # a parameter standing for a simple argument expression (self.decays, …)
+                return ast.copy_location(copy.deepcopy(v), n) if isinstance(n.ctx, ast.Load) else n
+            return ast.copy_location(ast.Name(id=v, ctx=n.ctx), n)
         return n
 
     def visit_arg(self, n):
@@ -166,57 +169,141 @@ def _empty_container(e) -> bool:
 
 def group_aliases(tree: ast.Module) -> ast.Module:
     """`g = D.setdefault(K, {})` … uses of g   ==>   `D.setdefault(K, {})` … uses of D[K]
-    (the local that names a group of a two-level dictionary is replaced by the subscript it stands for).  Applied when g is
-    a plain local bound exactly once in its function, D is a plain name, the default is an empty container and K is a name,
-    an attribute chain or a constant (so that repeating it has no effect of its own)."""
+    (the local that names a group of a two-level dictionary is replaced by the subscript it stands for).  Applied per block:
+    the uses rewritten are those in the statements that follow the binding in the same block (a loop body usually), up to a
+    rebinding of g; D is a plain name, the default an empty container, K a name / attribute chain / constant (repeating it
+    has no effect of its own).  If g is also read anywhere else in the function, nothing is changed."""
     changed = False
-    tree2 = None
 
     def simple(e):
         return isinstance(e, (ast.Name, ast.Constant)) or (isinstance(e, ast.Attribute) and simple(e.value)) or \
             (isinstance(e, ast.Subscript) and simple(e.value) and isinstance(e.slice, ast.Constant))
 
+    def is_binding(st):
+        if not (isinstance(st, ast.Assign) and len(st.targets) == 1 and isinstance(st.targets[0], ast.Name)):
+            return None
+        v = st.value
+        if isinstance(v, ast.Call) and isinstance(v.func, ast.Attribute) and v.func.attr == "setdefault" and isinstance(v.func.value, ast.Name) \
+                and len(v.args) == 2 and not v.keywords and _empty_container(v.args[1]) and simple(v.args[0]):
+            return st.targets[0].id
+        return None
+
     def process(fn):
         nonlocal changed
-        binds: dict[str, list] = {}
+        # candidate names: every binding of the name in the function is a setdefault-group binding
+        stores: dict[str, list] = {}
         for n in ast.walk(fn):
             if isinstance(n, ast.Name) and isinstance(n.ctx, (ast.Store, ast.Del)):
-                binds.setdefault(n.id, []).append(n)
-        for st in [x for x in ast.walk(fn) if isinstance(x, ast.Assign)]:
-            if len(st.targets) != 1 or not isinstance(st.targets[0], ast.Name):
+                stores.setdefault(n.id, []).append(n)
+        bind_stmts = [st for st in ast.walk(fn) if isinstance(st, ast.Assign) and is_binding(st)]
+        names = {is_binding(st) for st in bind_stmts}
+        names = {g for g in names if len(stores.get(g, [])) == sum(1 for st in bind_stmts if is_binding(st) == g)}
+        if not names:
+            return
+        handled_loads: set[int] = set()
+        plan = []      # (block list, index of binding, name, subscript)
+
+        def scan(block):
+            for i, st in enumerate(block):
+                g = is_binding(st)
+                if g in names:
+                    sub = ast.Subscript(value=ast.Name(id=st.value.func.value.id, ctx=ast.Load()), slice=copy.deepcopy(st.value.args[0]), ctx=ast.Load())
+                    j = i + 1
+                    while j < len(block) and not any(is_binding(x) == g for x in ast.walk(block[j]) if isinstance(x, ast.Assign)):
+                        j += 1
+                    for later in block[i + 1:j]:
+                        for x in ast.walk(later):
+                            if isinstance(x, ast.Name) and x.id == g and isinstance(x.ctx, ast.Load):
+                                handled_loads.add(id(x))
+                    plan.append((block, i, j, g, sub))
+                for f in ("body", "orelse", "finalbody"):
+                    b = getattr(st, f, None)
+                    if isinstance(b, list) and b and isinstance(b[0], ast.stmt) and not isinstance(st, (ast.FunctionDef, ast.ClassDef)):
+                        scan(b)
+                if isinstance(st, ast.Try):
+                    for h in st.handlers:
+                        scan(h.body)
+        scan(fn.body)
+        # every read of a candidate name must be covered by some binding's region
+        for g in list(names):
+            loads = [x for x in ast.walk(fn) if isinstance(x, ast.Name) and x.id == g and isinstance(x.ctx, ast.Load)]
+            if any(id(x) not in handled_loads for x in loads):
+                names.discard(g)
+        for block, i, j, g, sub in plan:
+            if g not in names:
                 continue
-            g = st.targets[0].id
-            v = st.value
-            if not (isinstance(v, ast.Call) and isinstance(v.func, ast.Attribute) and v.func.attr == "setdefault" and isinstance(v.func.value, ast.Name)
-                    and len(v.args) == 2 and not v.keywords and _empty_container(v.args[1]) and simple(v.args[0]) and len(binds.get(g, [])) == 1):
-                continue
-            d_, k_ = v.func.value, v.args[0]
-            # K must not be rebound between the definition and the uses: require K's names to be bound at most once, or be loop-invariant locals
-            sub = ast.Subscript(value=ast.Name(id=d_.id, ctx=ast.Load()), slice=copy.deepcopy(k_), ctx=ast.Load())
 
             class R(ast.NodeTransformer):
-                def visit_Name(self, n):
+                def visit_Name(self, n, g=g, sub=sub):
                     if n.id == g and isinstance(n.ctx, ast.Load):
                         return ast.copy_location(copy.deepcopy(sub), n)
                     return n
-            # rewrite uses everywhere in the function, then turn the binding into a bare call
-            for holder in ast.walk(fn):
-                for f_, val in ast.iter_fields(holder):
-                    if isinstance(val, list):
-                        for i, x in enumerate(val):
-                            if x is st:
-                                val[i] = ast.copy_location(ast.Expr(value=st.value), st)
-            R().visit(fn)
+            for k in range(i + 1, j):
+                block[k] = R().visit(block[k])
+            block[i] = ast.copy_location(ast.Expr(value=block[i].value), block[i])
             changed = True
 
-    import copy as _c
-    tree2 = _c.deepcopy(tree)
-    for n in ast.walk(tree2):
+    t2 = copy.deepcopy(tree)
+    for n in ast.walk(t2):
         if isinstance(n, ast.FunctionDef):
             process(n)
     if changed:
-        ast.fix_missing_locations(tree2)
-        return tree2
+        ast.fix_missing_locations(t2)
+        return t2
+    return tree
+
+
+def plain_assignments(tree: ast.Module) -> ast.Module:
+    """`x: T = v`  ==>  `x = v`   (an annotated assignment with a value is an assignment; the annotation is not evaluated for
+    the rules' purposes).  Bare declarations `x: T` are kept."""
+    class T(ast.NodeTransformer):
+        def visit_AnnAssign(self, n):
+            self.generic_visit(n)
+            if n.value is None:
+                return n
+            return ast.copy_location(ast.Assign(targets=[n.target], value=n.value, lineno=n.lineno), n)
+    t2 = T().visit(copy.deepcopy(tree))
+    ast.fix_missing_locations(t2)
+    return t2
+
+
+def ctor_kwargs(tree: ast.Module) -> ast.Module:
+    """`d = OrderedDict(a=x, b=y)` / `d = dict(a=x, b=y)`  ==>  `d = OrderedDict()` ; `d["a"] = x` ; `d["b"] = y`
+    (a mapping created with its first entries as keyword arguments is the same as one filled by item stores, in order)."""
+    changed = False
+
+    def block(stmts):
+        nonlocal changed
+        out = []
+        for st in stmts:
+            for f in ("body", "orelse", "finalbody"):
+                b = getattr(st, f, None)
+                if isinstance(b, list) and b and isinstance(b[0], ast.stmt):
+                    setattr(st, f, block(b))
+            if isinstance(st, ast.Try):
+                for h in st.handlers:
+                    h.body = block(h.body)
+            tg = st.targets[0] if isinstance(st, ast.Assign) and len(st.targets) == 1 else (st.target if isinstance(st, ast.AnnAssign) else None)
+            v = getattr(st, "value", None)
+            if isinstance(tg, ast.Name) and isinstance(v, ast.Call) and not v.args and v.keywords and all(k.arg is not None for k in v.keywords) \
+                    and ((isinstance(v.func, ast.Name) and v.func.id in ("OrderedDict", "dict")) or (isinstance(v.func, ast.Attribute) and v.func.attr == "OrderedDict")):
+                empty = ast.copy_location(ast.Call(func=v.func, args=[], keywords=[]), v)
+                first = ast.copy_location(ast.Assign(targets=[ast.Name(id=tg.id, ctx=ast.Store())], value=empty, lineno=st.lineno), st)
+                out.append(first)
+                for k in v.keywords:
+                    out.append(ast.copy_location(ast.Assign(targets=[ast.Subscript(value=ast.Name(id=tg.id, ctx=ast.Load()), slice=ast.Constant(value=k.arg), ctx=ast.Store())],
+                                                            value=k.value, lineno=st.lineno), st))
+                changed = True
+                continue
+            out.append(st)
+        return out
+    t2 = copy.deepcopy(tree)
+    for n in ast.walk(t2):
+        if isinstance(n, (ast.FunctionDef, ast.AsyncFunctionDef)):
+            n.body = block(n.body)
+    if changed:
+        ast.fix_missing_locations(t2)
+        return t2
     return tree
 
 
@@ -463,6 +550,7 @@ def inline_helpers(tree: ast.Module) -> ast.Module:
                 if isinstance(m, ast.FunctionDef) and (n.name, m.name) in single:
                     defs[m.name] = (n.name, m)
     counter = [0]
+    RESULT_ALIAS = [None]
 
     # A multi-statement helper called once per element of a list comprehension cannot be inlined inside the comprehension:
     # the comprehension statement is first unfolded into its loop form (`L = []` / `for …: L.append(E)`), where it can.
@@ -560,15 +648,19 @@ def inline_helpers(tree: ast.Module) -> ast.Module:
                     return None
                 given[p] = copy.deepcopy(d)
         mapping = {l: l + sfx for l in _locals_of(fn) if l != recv}
+        if RESULT_ALIAS[0] is not None:
+            mapping[RESULT_ALIAS[0][0]] = RESULT_ALIAS[0][1]
         if recv is not None:
             # the receiver is the caller's own self / cls (or the class itself): keep the name when it is the same, else map it
             r = call.func.value.id
             mapping[recv] = r
         # a parameter that the callee never rebinds and that receives a plain name needs no binding: use the caller's name
         stored = {x.id for x in ast.walk(fn) if isinstance(x, ast.Name) and isinstance(x.ctx, (ast.Store, ast.Del))}
-        direct = [p for p in allp if isinstance(given[p], ast.Name) and p not in stored]
+        def simple(e):
+            return isinstance(e, (ast.Name, ast.Constant)) or (isinstance(e, ast.Attribute) and simple(e.value))
+        direct = [p for p in allp if simple(given[p]) and p not in stored]
         for p in direct:
-            mapping[p] = given[p].id
+            mapping[p] = given[p].id if isinstance(given[p], ast.Name) else given[p]
         pre = [ast.copy_location(ast.Assign(targets=[ast.Name(id=mapping[p], ctx=ast.Store())], value=given[p], lineno=call.lineno), call) for p in allp if p not in direct]
         body = copy.deepcopy(_body(fn))
         body = [_Rename(mapping).visit(st) for st in body]
@@ -602,7 +694,28 @@ def inline_helpers(tree: ast.Module) -> ast.Module:
                     done = True
             elif isinstance(st, (ast.Assign, ast.AnnAssign)) and st.value is not None and (nm := call_of(st.value)) and defs[nm][1] is not host:
                 tg = st.targets[0] if isinstance(st, ast.Assign) else st.target
+                def _simple_target(e):
+                    return isinstance(e, ast.Name) or (isinstance(e, ast.Attribute) and _simple_target(e.value))
+                if isinstance(tg, ast.Attribute) and _simple_target(tg) and (not isinstance(st, ast.Assign) or len(st.targets) == 1):
+                    # obj.attr = helper(...): every `return X` becomes `obj.attr = X`
+                    new = expand_call(st.value, nm, lambda r, tg=tg: [ast.copy_location(ast.Assign(targets=[copy.deepcopy(tg)], value=r.value, lineno=r.lineno), r)], set())
+                    if new is not None:
+                        out += new
+                        done = True
+                        continue
                 if isinstance(tg, ast.Name) and (not isinstance(st, ast.Assign) or len(st.targets) == 1):
+                    rets_ = [r_ for r_ in ast.walk(defs[nm][1]) if isinstance(r_, ast.Return)]
+                    plist = [a.arg for a in defs[nm][1].args.args + defs[nm][1].args.kwonlyargs]
+                    if len(rets_) == 1 and isinstance(rets_[0].value, ast.Name) and rets_[0].value.id not in plist and (tg.id == rets_[0].value.id or tg.id not in _locals_of(defs[nm][1])) \
+                            and not any(isinstance(x, ast.Name) and x.id == tg.id for x in ast.walk(st.value)):
+                        # the helper builds its result in one local and returns it: that local IS the caller's target
+                        RESULT_ALIAS[0] = (rets_[0].value.id, tg.id)
+                        new = expand_call(st.value, nm, lambda r: [], set())
+                        RESULT_ALIAS[0] = None
+                        if new is not None:
+                            out += new
+                            done = True
+                            continue
                     new = expand_call(st.value, nm, lambda r, tg=tg, st=st: [ast.copy_location(ast.Assign(targets=[ast.Name(id=tg.id, ctx=ast.Store())], value=r.value, lineno=r.lineno), r)],
                                       set())
                     if new is not None:
